@@ -250,6 +250,18 @@ func honoured(tier string) []cfgCase {
 		out = append(out, cfgCase{Name: "globs " + name, Engine: "mux", Version: "3.0.0", Feat: map[string]string{"family": "honoured", "globs": name},
 			Mutate: func(c map[string]any) { scen.Set(c, "commonConfig.controllerGlobs", g) }})
 	}
+	// configured text is copied literally, whatever it looks like to a shell or a template engine
+	out = append(out, cfgCase{Name: "text with dollar signs, braces and percent signs", Engine: "gin", Version: "3.1.0", Feat: map[string]string{"family": "honoured", "text": "special-characters"},
+		Mutate: func(c map[string]any) {
+			scen.Set(c, "openapiGeneratorConfig.info.title", "Billing in $USD and ${currency} - 100% {{literal}}")
+			scen.Set(c, "openapiGeneratorConfig.info.description", "costs $5 per call; see $HOME and %s")
+			scen.Set(c, "openapiGeneratorConfig.info.contact.name", "Support $TEAM")
+		}})
+	out = append(out, cfgCase{Name: "text with dollar signs (3.0.0)", Engine: "chi", Version: "3.0.0", Feat: map[string]string{"family": "honoured", "text": "special-characters"},
+		Mutate: func(c map[string]any) {
+			scen.Set(c, "openapiGeneratorConfig.info.title", "Billing in $USD and ${currency}")
+			scen.Set(c, "openapiGeneratorConfig.info.description", "costs $5 per call")
+		}})
 	for _, paths := range [][2]string{{"./out/deep/er/routes.go", "./out/spec/api.json"}, {"routes_here.go", "spec_here.json"}} {
 		paths := paths
 		out = append(out, cfgCase{Name: "paths " + paths[0], Engine: "echo", Version: "3.0.0", Feat: map[string]string{"family": "honoured", "paths": paths[0]},
